@@ -9,7 +9,17 @@ server constructor against the extracted model, whole environ compared), and
 searched directly on the real code: two runs (with / without the headers)
 through the middleware, through create_server's wrapper, and from raw request
 bytes through the real parser and WSGITask.get_environment (underscore
-aliases included)."""
+aliases included).
+
+End to end (appended): the theorems C15_e2e_* compose the C07 model of the
+environ construction (Parser.v -> Environ.v) with the middleware model from
+the request BYTES on.  K-e2e runs the extracted composition
+(ocaml/c15e2e/runner) against the real HTTPRequestParser +
+WSGITask.execute() (get_environment, then channel.server.application as the
+real server constructor wrapped it) on the same bytes; S-e2e-bytes evaluates
+the end-to-end statement on the real code for triples (request, request with
+the proxy header lines deleted, request with those and every underscore-named
+line deleted)."""
 import hashlib
 
 from harness import proxy as P
@@ -18,7 +28,8 @@ LEVEL = "proof"
 ASSUMPTIONS = [
     "environ values are str (latin-1 decoded header text); non-str entries (wsgi.input ...) are never read or written by the middleware",
     "logging calls of the middleware are not modelled (no effect on the environ)",
-    "the environ the middleware receives is the one built by task.get_environment (K-env / C07 cover its construction; an end-to-end stream here runs the real parser and task for the proxy headers and their underscore aliases)",
+    "the environ the middleware receives is the one built by task.get_environment: composed in Coq (C15_e2e_*) with the C07 model of parser + get_environment and tied end to end by K-e2e on request bytes; the C07 residue applies (urlsplit oracle; bodies enter the composition theorem as the hypothesis 'same framing verdict and decoded body')",
+    "the caller's loop around parser.received (re-offering the unconsumed rest) is the harness's / the driver's, as in K-env",
 ]
 
 
@@ -43,6 +54,198 @@ def e2e_requests(rng, n):
         head = b"GET /p?q=1 HTTP/1.1\r\nHost: front.example\r\nUser-Agent: x\r\n"
         body = b"".join(("%s: %s\r\n" % (k, v)).encode("latin-1") for k, v in lines)
         out.append((head + body + b"\r\n", head + b"\r\n", lines))
+    return out
+
+
+E2E_CONFIGS = [
+    {"clear_untrusted_proxy_headers": True},
+    {"clear_untrusted_proxy_headers": False},
+    {},
+    {"trusted_proxy": P.OTHER, "trusted_proxy_headers": {"x-forwarded-for", "x-forwarded-host", "x-forwarded-proto"},
+     "clear_untrusted_proxy_headers": True, "url_scheme": "https", "url_prefix": "/p"},
+    {"trusted_proxy": P.OTHER, "trusted_proxy_headers": {"forwarded"}, "clear_untrusted_proxy_headers": False,
+     "ident": "w/1.0", "server_name": "srv.example"},
+    {"trusted_proxy": P.OTHER, "trusted_proxy_count": 2, "trusted_proxy_headers": {"x-forwarded-for", "x-forwarded-port", "x-forwarded-by"},
+     "clear_untrusted_proxy_headers": True, "log_untrusted_proxy_headers": True},
+    # the peer 10.9.8.7 IS the trusted proxy here: model-vs-real on the trusted path from bytes; the other peers stay untrusted
+    {"trusted_proxy": P.PEER, "trusted_proxy_headers": {"x-forwarded-for", "x-forwarded-host", "x-forwarded-proto", "x-forwarded-port"},
+     "clear_untrusted_proxy_headers": True},
+    {"trusted_proxy": P.PEER, "trusted_proxy_headers": {"forwarded"}, "clear_untrusted_proxy_headers": False},
+]
+
+
+def _kw_json(kw):
+    return {k: (sorted(v) if isinstance(v, (set, frozenset)) else v) for k, v in kw.items()}
+
+
+def _kw_from_json(d):
+    kw = dict(d)
+    if "trusted_proxy_headers" in kw and kw["trusted_proxy_headers"] is not None:
+        kw["trusted_proxy_headers"] = set(kw["trusted_proxy_headers"])
+    return kw
+
+
+def e2e_bytes(ctx, rng, quick, nontrivial):
+    from lib.vcommon import hexb
+    runner = ctx.runner("c15e2e", "ExtC15e2e.v")
+    out = {"evaluations": 0, "coverage": {}, "samples": []}
+    if runner is None:
+        ctx.oblige("extracted end-to-end composition (ExtC15e2e.v) builds", False, "see notes")
+        return out
+    per = 110 if quick else 2500
+    k_ok = s_ok = h_ok = True
+    n_pairs = n_untrusted = n_trusted = n_rejected = 0
+    status_dist = P.Counter()
+    spell = P.Counter()
+    body_dist = P.Counter()
+    seg_dist = P.Counter()
+    peer_dist = P.Counter()
+    model_lines = 0
+    for kw in E2E_CONFIGS:
+        es = P.E2EServer(**kw)
+        try:
+            cases = []
+            for raw_w, raw_wo in P.e2e_directed():
+                # logical lines of a directed request (its one folded line joined as get_header_lines does)
+                lines = [tuple(x.split(b":", 1)) for x in raw_w.split(b"\r\n\r\n")[0].replace(b"\r\n\t", b"\t").split(b"\r\n")[1:]]
+                cases.append(({"with": [raw_w], "without": None, "without_all": None}, lines, b"", "directed", "none"))
+            for _ in range(per):
+                c = P.gen_e2e_case(rng)
+                cases.append(({"with": P.e2e_split(rng, c["with"]), "without": P.e2e_split(rng, c["without"]),
+                               "without_all": P.e2e_split(rng, c["without_all"])}, c["lines"], c["pad"], "generated", c["body_kind"]))
+            # directed cases: derive the two deleted forms from the logical lines
+            fixed = []
+            for ch3, lines, pad, origin, bk in cases:
+                if ch3["without"] is None:
+                    head = ch3["with"][0].split(b"\r\n", 1)[0] + b"\r\n"
+                    def rend(ls):
+                        return head + b"".join(n + b":" + v + b"\r\n" for n, v in ls) + b"\r\n"
+                    wo = [(n, v) for n, v in lines if not P.e2e_is_proxy_name(n)]
+                    ch3 = {"with": ch3["with"], "without": [rend(wo)], "without_all": [rend([(n, v) for n, v in wo if b"_" not in n])]}
+                fixed.append((ch3, lines, pad, origin, bk))
+            cases = fixed
+            addrs = [rng.choice(P.E2E_PEERS) for _ in cases]
+            cmds = []
+            for (ch3, lines, pad, origin, bk), addr in zip(cases, addrs):
+                for w in ("with", "without", "without_all"):
+                    cmds.append(P.e2e_model_cmd(es, addr, ch3[w]))
+                cmds.append("parts " + " ".join(hexb(c) for c in ch3["with"]))
+                cmds.append("parts " + " ".join(hexb(c) for c in ch3["without"]))
+                cmds.append("parts " + " ".join(hexb(c) for c in ch3["without_all"]))
+            answers = runner.query(cmds)
+            model_lines += len(cmds)
+            # second round: kept_lines / value_of_lines on the lines the model itself read off the bytes
+            cmds2 = []
+            idx2 = []
+            for i, ((ch3, lines, pad, origin, bk), addr) in enumerate(zip(cases, addrs)):
+                pw, pwo, pwa = (answers[6 * i + 3 + j].split(" ") for j in range(3))
+                if pw[0] != "parts" or pwo[0] != "parts" or pwa[0] != "parts":
+                    continue
+                idx2.append(i)
+                cmds2.append("kept " + " ".join(pw[2:]))
+                cmds2.append("kept " + " ".join(pwo[2:]))
+                cmds2.append("kept " + " ".join(pwa[2:]))
+                for key in ["HTTP_HOST"] + P.PROXY_KEYS:
+                    cmds2.append("kv %s %s" % (hexb(key.encode()), " ".join(pw[2:])))
+            answers2 = runner.query(cmds2)
+            model_lines += len(cmds2)
+            a2 = {i: answers2[10 * j:10 * j + 10] for j, i in enumerate(idx2)}
+            for i, ((ch3, lines, pad, origin, bk), addr) in enumerate(zip(cases, addrs)):
+                n_pairs += 1
+                out["evaluations"] += 6
+                untrusted = P.e2e_is_untrusted(es, addr)
+                fails, reals = P.e2e_eval_real(es, addr, ch3, lines)
+                status_dist[reals["with"][0]] += 1
+                peer_dist["%s:%s" % (addr[0], "untrusted" if untrusted else "TRUSTED")] += 1
+                seg_dist[len(ch3["with"])] += 1
+                body_dist[bk] += 1
+                nd = sum(1 for n, _ in lines if P.e2e_is_proxy_name(n))
+                nu = sum(1 for n, _ in lines if b"_" in n)
+                spell["dash-spelled proxy lines"] += nd
+                spell["underscore-named lines"] += nu
+                spell["blank-valued proxy lines"] += sum(1 for n, v in lines if P.e2e_is_proxy_name(n) and not v.strip(b" \t"))
+                if reals["with"][0] != "ok":
+                    n_rejected += 1
+                elif untrusted:
+                    n_untrusted += 1
+                else:
+                    n_trusted += 1
+                if reals["with"][0] == "ok" and (nd or nu):
+                    nontrivial.add("e2eb" + hashlib.sha1(b"|".join(ch3["with"]) + repr((sorted(_kw_json(kw).items()), addr)).encode()).hexdigest())
+                base = {"kind": "e2e-bytes", "server_kw": _kw_json(kw), "addr": list(addr),
+                        "chunks_hex": {w: [c.hex() for c in ch3[w]] for w in ch3},
+                        "lines_hex": [[n.hex(), v.hex()] for n, v in lines],
+                        "request": repr(b"".join(ch3["with"]))[:600], "peer_is_trusted_proxy": not untrusted}
+                if fails:
+                    s_ok = False
+                    d = dict(base)
+                    d.update({"check": "statement", "expected": "metadata fixed by the connection/server context and the Host line; no influence of the proxy header lines or of underscore-named lines; none of the six reaches the application when clearing is on",
+                              "observed": fails[:5], "failing_input_found": True})
+                    ctx.report("e2e-bytes:" + fails[0][:60], "end to end from bytes (real parser -> WSGITask.execute -> server.application): " + fails[0], d)
+                # K-e2e
+                for j, w in enumerate(("with", "without", "without_all")):
+                    m = P.e2e_parse_model(answers[6 * i + j])
+                    r = P.e2e_real_canon(reals[w])
+                    if tuple(m) != tuple(r):
+                        k_ok = False
+                        d = dict(base)
+                        what = w
+                        diff = ""
+                        if m[0] == "ok" and r[0] == "ok":
+                            for nm, md, rd in (("application", m[1], r[1]), ("task environ", m[2], r[2])):
+                                for k in sorted(set(md) | set(rd)):
+                                    if md.get(k) != rd.get(k):
+                                        diff = "%s: %s model %r, real %r" % (nm, k, md.get(k), rd.get(k))
+                                        break
+                                if diff:
+                                    break
+                        else:
+                            diff = "model %s, real %s" % (" ".join(str(x) for x in m[:2])[:80], " ".join(str(x) for x in r[:2])[:80])
+                        d.update({"check": "model", "which": w, "expected": "the composed model's answer: " + diff, "observed": diff, "failing_input_found": True})
+                        ctx.report("e2e-model:" + diff[:60], "composed model (parser -> environ -> middleware) and real code disagree on request bytes (%s): %s" % (w, diff), d)
+                        break
+                # the theorem's hypotheses and vocabulary, computed by the extracted functions on these very bytes
+                if reals["with"][0] == "ok" and i in a2:
+                    want_lines = [P.e2e_logical_line(n, v, pad) for n, v in lines]
+                    got = answers[6 * i + 3].split(" ")
+                    got_lines = [bytes.fromhex(x) if x != "-" else b"" for x in got[2:]]
+                    hy = []
+                    if got_lines != want_lines:
+                        hy.append("head_parts reads %r, the request was generated from %r" % (got_lines[:4], want_lines[:4]))
+                    kw_, kwo, kwa = a2[i][0], a2[i][1], a2[i][2]
+                    if not (kw_ == kwo == kwa):
+                        hy.append("kept_lines differ between the request and its deleted forms")
+                    if kwa.split(" ")[1:] != answers[6 * i + 5].split(" ")[2:]:
+                        hy.append("kept_lines of the fully deleted form is not the form itself")
+                    for key, ans in zip(["HTTP_HOST"] + P.PROXY_KEYS, a2[i][3:]):
+                        lname = "host" if key == "HTTP_HOST" else [n for n in P.E2E_NAMES if P.KIND_KEY[n] == key][0]
+                        want = P.e2e_expected_key(lines, lname)
+                        gotv = None if ans == "N" else P.unhx(ans[2:])
+                        if gotv != want:
+                            hy.append("value_of_lines (key_lines %s) = %r, independent reading %r" % (key, gotv, want))
+                    if hy:
+                        h_ok = False
+                        d = dict(base)
+                        d.update({"check": "hypotheses", "observed": hy[:4], "expected": "the generated pair satisfies the hypotheses of C15_e2e_two_requests as computed by the extracted model", "failing_input_found": True})
+                        ctx.report("e2e-hyp:" + hy[0][:60], "end-to-end theorem vocabulary vs. generated request: " + hy[0], d)
+                if not fails and len(out["samples"]) < 2 and untrusted and nd >= 2 and nu >= 1 and reals["with"][0] == "ok":
+                    out["samples"].append({"request": repr(b"".join(ch3["with"]))[:400], "peer": list(addr), "server_kw": _kw_json(kw),
+                                           "application_sees": {k: reals["with"][1].get(k) for k in P.META_KEYS + P.PROXY_KEYS if k in reals["with"][1]},
+                                           "verdict": "metadata from context/Host only; equal to the deleted forms off the six keys"})
+        finally:
+            es.close()
+    ctx.oblige("K-e2e: composed model (Parser -> Environ -> str_view -> serve) == real HTTPRequestParser + WSGITask.execute + server.application on the same bytes (served environ, task environ, error class), any segmentation", k_ok,
+               "%d requests x 3 forms" % n_pairs)
+    ctx.oblige("S-e2e-bytes: real code, untrusted peer, from bytes: metadata = context/Host line, request == request without proxy lines == request without proxy and underscore lines (off the six keys), underscore spellings never create a proxy key, cleared when clearing is on", s_ok,
+               "%d untrusted triples" % n_untrusted)
+    ctx.oblige("H-e2e: every generated triple satisfies the hypotheses of C15_e2e_two_requests as computed by the extracted head_parts / kept_lines, and value_of_lines/key_lines agree with an independent reading of the lines", h_ok)
+    out["coverage"] = {
+        "triples": n_pairs, "untrusted_accepted": n_untrusted, "trusted_peer_accepted": n_trusted, "rejected_by_parser_or_middleware": n_rejected,
+        "real_status_of_request_with_headers": dict(status_dist), "line_kinds": dict(spell), "body_kinds": dict(body_dist),
+        "segments_per_request": {str(k): v for k, v in sorted(seg_dist.items())}, "peers": dict(peer_dist),
+        "server_configurations": len(E2E_CONFIGS), "model_queries": model_lines,
+        "distribution": "request line x Host variants x benign/near-miss/CGI-looking names x 0..3 lines per proxy header in dash/upper/lower/random-case and underscore spellings, values from the C16 grammar incl. degenerate/hostile/blank, obs-fold inside values, Content-Length and chunked bodies, 1..3 segments; plus 23 directed requests per configuration",
+    }
     return out
 
 
@@ -222,6 +425,11 @@ def run(ctx):
             srv.close()
     ctx.oblige("S-e2e: raw request with hostile proxy headers / underscore aliases vs. the same request without them, through the real parser, task environ and server wrapper", e2e_ok)
 
+
+    # ---- end to end from BYTES: the composed model (C15_e2e_*) against the real parser + task.execute + wrapper
+    e2e2 = e2e_bytes(ctx, rng, quick, nontrivial)
+    evaluations += e2e2["evaluations"]
+
     if not props_ok and not ctx.violations:
         ctx.report("c15-proof-broken", "Props/C15.v no longer checks (%s)" % failing,
                    {"failing_input_found": False, "broken": "Props/C15.v via %s" % failing, "log_tail": (log or "")[-1500:]})
@@ -241,7 +449,11 @@ def run(ctx):
         "end_to_end_requests": n_e2e,
         "history_requests": nh,
         "primitive_cases": nprim,
+        "e2e_bytes": e2e2["coverage"],
     })
+    for smp in e2e2["samples"]:
+        if len(ctx.coverage["samples"]) < 5:
+            ctx.coverage["samples"].append(smp)
 
 
 def replay(data):
@@ -274,6 +486,30 @@ def replay(data):
         same = a[0] == b[0] == "ok" and all(a[1].get(k) == b[1].get(k) for k in set(a[1]) | set(b[1]) if k not in P.PROXY_KEYS)
         print("request=%r\n with=%s\n without=%s" % (raw, P.short(a), P.short(b)))
         return 0 if same else 1
+    if data.get("kind") == "e2e-bytes":
+        es = P.E2EServer(**_kw_from_json(data["server_kw"]))
+        try:
+            addr = tuple(data["addr"])
+            ch3 = {w: [bytes.fromhex(c) for c in data["chunks_hex"][w]] for w in data["chunks_hex"]}
+            lines = [(bytes.fromhex(n), bytes.fromhex(v)) for n, v in data["lines_hex"]]
+            fails, reals = P.e2e_eval_real(es, addr, ch3, lines)
+            bad = 1 if fails else 0
+            print("request=%s\n peer=%r server=%r" % (data.get("request"), addr, data["server_kw"]))
+            for w in ("with", "without", "without_all"):
+                print(" %-12s -> %s" % (w, P.short(reals[w]) if reals[w][0] == "ok" else reals[w][0]))
+            if data.get("check") == "model":
+                from lib.vcommon import build_runner, Runner
+                path, _log = build_runner("c15e2e", "ExtC15e2e.v")
+                if path:
+                    w = data.get("which", "with")
+                    m = P.e2e_parse_model(Runner(path).query([P.e2e_model_cmd(es, addr, ch3[w])])[0])
+                    if tuple(m) != tuple(P.e2e_real_canon(reals[w])):
+                        print(" composed model and real code still disagree on the %r form" % w)
+                        bad = 1
+            print(" %s" % (fails[:5] if fails else ("statement holds now" if not bad else "")))
+            return bad
+        finally:
+            es.close()
     if data.get("kind") == "install":
         print("install condition mismatch for %r; re-run the check" % data.get("config"))
         return 1
